@@ -276,6 +276,8 @@ def check_C02(tier, seed):
     for d in sample(drops, n_drop, r):
         half = len(d) // 2
         scripts.append(scen.progress_script(r, len(scripts), drops_only=([x == "x" for x in d[:half]], [x == "x" for x in d[half:]])))
+    for _ in range(24 if quick else 400):
+        scripts.append(scen.progress_eager(r, len(scripts)))
     mcs = [("Progress.tla", "MC_Progress.cfg" if quick else "MC_Progress3.cfg")]
     return generic("C02", tier, seed, mcs, scripts,
                    [("progress", "ProgressTrace.tla", "ProgressTrace.cfg")],
